@@ -573,7 +573,7 @@ func (h *c17H) doNew(line string, w []string) {
 		h.r.Stat("idem:checked")
 		if prev != id {
 			sig := c17IdemClass(req)
-			if sig == "idem:other" && h.wb.dupCur[key] {
+			if (sig == "idem:other" || sig == "idem:component-index-0") && h.wb.dupCur[key] {
 				sig = "idem:currency-duplicate-code"
 			}
 			h.r.Fail(sig, fmt.Sprintf("NewStyle of a definition registered before returned id %d, first registration returned %d: %s", id, prev, key), ln, h.replay())
@@ -672,7 +672,9 @@ func (h *c17H) doRereg(line string, id int) {
 		h.r.Fail(sig, fmt.Sprintf("GetStyle(%d) = %q but GetStyle(NewStyle(that)) = %q", id, genc, g2), ln, h.replay())
 	}
 	// the read-back definition registered again must give the id just issued
-	key := "rereg:" + c17Canon(genc)
+	// keyed by the literal definition, like `new`: a zero-valued Alignment and no Alignment are
+	// different requests for NewStyle (they may get different ids) although they read as one definition
+	key := "rereg:" + genc
 	if prev, seen := h.wb.issued[key]; seen {
 		h.r.Stat("idem:checked")
 		if prev != id2 {
